@@ -38,6 +38,9 @@ const (
 	// retryLoopInterval is the interval at which the retry handler checks for
 	// replicators that are due for a retry.
 	retryLoopInterval = 2 * time.Second
+	// maxTxnConflictRetries bounds how often the bookkeeping of failed and retried pushes is
+	// run again after a transaction conflict.
+	maxTxnConflictRetries = 10
 )
 
 func (p *Peer) SetReplicator(ctx context.Context, repInfo peer.AddrInfo, collectionNames ...string) error {
@@ -349,6 +352,27 @@ func (p *Peer) handleReplicatorFailure(ctx context.Context, peerID, docID string
 	p.handleRetryMutex.Lock()
 	defer p.handleRetryMutex.Unlock()
 
+	// The retry loop writes the retry record without this mutex. On a conflict with it the
+	// failure is recorded again from the current state, otherwise the document would be
+	// left out of the retry set and never reach the replicator.
+	return retryOnTxnConflict(func() error {
+		return p.recordReplicatorFailure(ctx, peerID, docID)
+	})
+}
+
+// retryOnTxnConflict runs fn again while it fails with a transaction conflict.
+func retryOnTxnConflict(fn func() error) error {
+	var err error
+	for i := 0; i < maxTxnConflictRetries; i++ {
+		err = fn()
+		if !errors.Is(err, corekv.ErrTxnConflict) {
+			return err
+		}
+	}
+	return err
+}
+
+func (p *Peer) recordReplicatorFailure(ctx context.Context, peerID, docID string) error {
 	clientTxn, err := p.db.NewTxn(ctx, false)
 	if err != nil {
 		return err
@@ -374,6 +398,14 @@ func (p *Peer) handleReplicatorFailure(ctx context.Context, peerID, docID string
 }
 
 func (p *Peer) handleCompletedReplicatorRetry(ctx context.Context, peerID string, success bool) error {
+	// A failure recorded for this replicator at the same moment conflicts with this transaction;
+	// giving up would leave the record marked as retrying, and no further round would start.
+	return retryOnTxnConflict(func() error {
+		return p.completeReplicatorRetry(ctx, peerID, success)
+	})
+}
+
+func (p *Peer) completeReplicatorRetry(ctx context.Context, peerID string, success bool) error {
 	clientTxn, err := p.db.NewTxn(ctx, false)
 	if err != nil {
 		return err
